@@ -18,8 +18,10 @@ use std::time::Instant;
 
 type Out = Result<Vec<Vec<u8>>, E>;
 
-fn explore(api: &Api, setting_ix: usize, seed: u64, cx: &mut Cx) {
+fn explore(api: &Api, setting_ix: usize, style: u8, seed: u64, cx: &mut Cx) {
     let sp = api.spec;
+    // what the external key serializes to: a decoy private key (style 0) or an opaque handle that is no scalar (1)
+    api.r_style(style);
     let p = setting(setting_ix);
     let fx = (|| -> Result<_, String> {
         let mut t = Tape::seeded(seed, &format!("c18/fx/{}", setting_ix));
@@ -99,8 +101,8 @@ fn explore(api: &Api, setting_ix: usize, seed: u64, cx: &mut Cx) {
                 }
             }
         };
-        cx.begin_case(json!({"op": op, "setting": setting_ix, "fail_at": null}));
-        cx.state(&(op, 0usize));
+        cx.begin_case(json!({"op": op, "setting": setting_ix, "handle_style": if style == 0 { "decoy private key" } else { "opaque bytes, not a scalar" }, "fail_at": null}));
+        cx.state(&(op, style, 0usize));
         cx.edges += 2;
         cx.path();
         let (r0, log0) = remote(None);
@@ -120,8 +122,8 @@ fn explore(api: &Api, setting_ix: usize, seed: u64, cx: &mut Cx) {
         cx.add("interface_calls_observed", log0.len() as u64);
         let calls = fallible.len();
         for n in 1..=calls + 1 {
-            cx.begin_case(json!({"op": op, "setting": setting_ix, "fail_at": n, "fallible_calls_in_clean_run": fallible}));
-            cx.state(&(op, n));
+            cx.begin_case(json!({"op": op, "setting": setting_ix, "handle_style": if style == 0 { "decoy private key" } else { "opaque bytes, not a scalar" }, "fail_at": n, "fallible_calls_in_clean_run": fallible}));
+            cx.state(&(op, style, n));
             cx.edges += 1;
             cx.path();
             let (r, log) = remote(Some(n));
@@ -151,16 +153,21 @@ pub fn run(tier: Tier, seed: u64) -> i32 {
     let mut items = vec![];
     for api in all_apis() {
         for s in 0..3 {
-            items.push((api, s));
+            for style in 0..2u8 {
+                items.push((api, s, style));
+            }
         }
     }
-    let tot = fw::run_items("C18", &items, |(a, _)| a.name().to_string(), |(api, s), cx| explore(api, *s, seed, cx));
+    let tot = fw::run_items("C18", &items, |(a, _, _)| a.name().to_string(), |(api, s, style), cx| {
+        explore(api, *s, *style, seed, cx);
+        api.r_style(0);
+    });
     let rep = Report {
         property: "C18",
         tier,
         seed,
         rule: "fault enumeration as an LTS: for each of 6 operations x 3 settings x 20 suites, the clean run and the runs with the external key failing at its n-th fallible interface call for every n in 1..calls+1; differential oracle against the direct-key server on the same tape".into(),
-        bounds: json!({"suites": 20, "settings": 3, "operations": 6, "fault_positions": "every n up to (calls made + 1)", "quick_equals_thorough": true}),
+        bounds: json!({"suites": 20, "settings": 3, "handle_styles": ["a decoy private key", "opaque bytes that are no scalar encoding"], "operations": 6, "fault_positions": "every n up to (calls made + 1)", "quick_equals_thorough": true}),
         assumptions: vec!["the external key is a harness-defined implementation of the public SecretKey trait wrapping the same private key".into()],
         exhaustive: true,
         crosscheck: json!(null),
